@@ -191,12 +191,14 @@ def classify(ix, d1, d2):
     flat = list(itertools.chain(*per1, *per2))
     if any(isinstance(v, list) for k in ix['key'] for v in [get_raw(d1, k), get_raw(d2, k)]):
         return 'multikey'
-    if any(dead_end(d, k) for k in ix['key'] for d in (d1, d2)):
-        return 'deadend-null'
     if ix['sparse'] and any(v is None for v in flat):
         return 'sparse-null'
     if any(has_dollar_key(get_raw(d, k)) for k in ix['key'] for d in (d1, d2)):
         return 'operator-like-value'
+    # (repaired with the matcher, known_findings.json `deadend-null` is "fixed": named only when
+    # no class that is still known explains the duplicate, so that its return is reported)
+    if any(dead_end(d, k) for k in ix['key'] for d in (d1, d2)):
+        return 'deadend-null'
     return 'unique-violated'
 
 
